@@ -431,6 +431,12 @@ def gen_project(rng, idx):
             sn = rng.choice(SNIPPETS)
             parts.append(sn.format(i=rng.randint(0, 2), label=rng.choice(labels), label2=rng.choice(labels),
                                    inc=rng.randrange(ninc), doc=rng.choice(names)))
+        if rng.random() < 0.6:
+            # one image file referred to from several pages under different spellings (absolute, relative to the page): what a page
+            # records about the asset is its OWN spelling, whichever page happened to be finished first
+            depth = name.count("/")
+            spell = rng.choice(["/images/a.png", "../" * depth + "images/a.png", "../" * depth + "images/a.png"])
+            parts.append(f".. image:: {spell}\n   :alt: shared\n")
         if j == 0:
             parts.append(".. toctree::\n\n" + "".join(f"   /{nm}\n" for nm in names[1:] if rng.random() < 0.8))
         elif rng.random() < 0.3:
